@@ -21,7 +21,9 @@ def run_pipeline(ctx, explorer, cunit, driver, args, tag):
     tables = os.path.join(ctx.workdir, "tables-%s.txt" % tag)
     rc, out = sh([explorer, ops, langs] + args, env=ctx.env, timeout=3000)
     if rc != 0:
-        return None, None, "explorer failed: " + out[-800:]
+        cur = ops + ".current"
+        crashed = open(cur).read().strip() if os.path.exists(cur) else ""
+        return ({"crash": crashed} if crashed else None), None, "explorer failed: " + out[-800:]
     msg = out.strip().split("\n")[-1] if out.strip() else ""
     largs = []
     for line in open(langs):
@@ -150,6 +152,10 @@ def run(ctx):
     else:
         specs, lines, msg = run_pipeline(ctx, explorer, cunit, driver, [], "main")
     if lines is None:
+        if specs and specs.get("crash"):
+            lang = specs["crash"].split(" ")[0]
+            ctx.violation("judge", "the runtime aborted while running this edit history (incremental or scratch parse): " + msg[-300:],
+                          {"case": "crash", "spec": specs["crash"]}, fingerprint={"lang": lang, "clause": "runtime abort"})
         ctx.oblige("run:explorer", False, msg)
         return ctx.finish()
     ctx.log(msg)
